@@ -144,3 +144,40 @@ Example canon_relabels_a_copy : Logic.canon_relabel_copy = true. Proof. reflexiv
 Example invariant_code_has_no_further_rule : Logic.invariant_code_plain = true. Proof. reflexivity. Qed.
 (* attribute_sequence returns the atom's own value first, then the (sorted) neighbour values (Partition.keyL) *)
 Example attribute_sequence_own_value_first : Logic.attribute_sequence_own_first = true. Proof. reflexivity. Qed.
+
+(* ------------------------------------------------------------------ molfile_v3000_reader.py *)
+Require V3000.
+
+(* `if val and val[-1] != 0: atom_attrs[key] = val[-1]` -- V3000.last_nonzero: the last statement of a keyword wins, and it is
+   stored exactly when the source's test (operator and constant read from the AST) holds *)
+Lemma v3000_store_decision :
+  forall l : list Z,
+    V3000.last_nonzero l =
+    match rev l with
+    | v :: _ => if cmpZ (fst Logic.v3000_store_test) v (snd Logic.v3000_store_test) then Some v else None
+    | [] => None
+    end.
+Proof.
+  intros l; unfold V3000.last_nonzero; destruct (rev l) as [|v r]; [reflexivity|].
+  unfold Logic.v3000_store_test, cmpZ; cbn [fst snd]; simpl String.eqb; cbv iota.
+  destruct (Z.eqb v 0); reflexivity.
+Qed.
+(* `if key != CHG and val and val[-1] < 0: raise` -- V3000.last_negative, applied to MASS and RAD only *)
+Lemma v3000_negative_decision :
+  forall l : list Z,
+    V3000.last_negative l =
+    match rev l with
+    | v :: _ => cmpZ (fst Logic.v3000_negative_test) v (snd Logic.v3000_negative_test)
+    | [] => false
+    end.
+Proof. intros l; unfold V3000.last_negative; destruct (rev l) as [|v r]; reflexivity. Qed.
+Example v3000_charge_may_be_negative : Logic.v3000_negative_exempt = "CHG". Proof. reflexivity. Qed.
+(* every use of the collected values is val[-1] (or emptiness), and the loop over CHG / MASS / RAD has no break / continue:
+   each of the three keywords is treated, whatever the others state *)
+Example v3000_last_statement_wins : Logic.v3000_last_wins = true /\ Logic.v3000_attr_loop_plain = true.
+Proof. split; reflexivity. Qed.
+
+(* ------------------------------------------------------------------ molfile_v2000_reader.py *)
+(* any `M  CHG` or `M  RAD` line clears both the charges and the radicals that came from the atom block (V2000.apply_extra: one
+   reset flag for both) *)
+Example v2000_chg_or_rad_line_resets_both : Logic.v2000_reset_both = true. Proof. reflexivity. Qed.
